@@ -47,3 +47,50 @@ pub assume_specification[ i32::saturating_sub ](x: i32, y: i32) -> (r: i32)
     ensures
         r as int == (if x as int - y as int > i32::MAX as int { i32::MAX as int } else if (x as int - y as int) < i32::MIN as int { i32::MIN as int } else { x as int - y as int }),
 ;
+
+// not used by the unchanged tree; specified so that edits using these common methods can still be decided
+pub assume_specification[ i32::rem_euclid ](x: i32, y: i32) -> (r: i32)
+    requires
+        y != 0,
+        !(x == i32::MIN && y == -1),
+    ensures
+        r as int == (x as int) % (y as int),
+;
+
+pub assume_specification[ i32::div_euclid ](x: i32, y: i32) -> (r: i32)
+    requires
+        y != 0,
+        !(x == i32::MIN && y == -1),
+    ensures
+        r as int == (x as int) / (y as int),
+;
+
+pub assume_specification[ i64::div_euclid ](x: i64, y: i64) -> (r: i64)
+    requires
+        y != 0,
+        !(x == i64::MIN && y == -1),
+    ensures
+        r as int == (x as int) / (y as int),
+;
+
+pub assume_specification[ i32::abs ](x: i32) -> (r: i32)
+    requires
+        x != i32::MIN,
+    ensures
+        r as int == (if x < 0 { -(x as int) } else { x as int }),
+;
+
+pub assume_specification[ i64::saturating_abs ](x: i64) -> (r: i64)
+    ensures
+        r as int == (if x == i64::MIN { i64::MAX as int } else if x < 0 { -(x as int) } else { x as int }),
+;
+
+pub assume_specification[ i64::saturating_add ](x: i64, y: i64) -> (r: i64)
+    ensures
+        r as int == (if x as int + y as int > i64::MAX as int { i64::MAX as int } else if (x as int + y as int) < i64::MIN as int { i64::MIN as int } else { x as int + y as int }),
+;
+
+pub assume_specification[ i32::saturating_add ](x: i32, y: i32) -> (r: i32)
+    ensures
+        r as int == (if x as int + y as int > i32::MAX as int { i32::MAX as int } else if (x as int + y as int) < i32::MIN as int { i32::MIN as int } else { x as int + y as int }),
+;
